@@ -934,8 +934,8 @@ fn resolve_site(ctx: &Ctx, exe: &std::path::Path, idx: u64, token: &str) -> Stri
     let tier = if ctx.quick() { "quick" } else { "thorough" };
     let args: Vec<String> = vec!["C08".into(), "--tier".into(), tier.into(), "--worker".into(), idx.to_string(), (idx + 1).to_string(), "--resolve".into()];
     let mut site: Option<String> = None;
-    for _ in 0..3 {
-        let _ = run_worker(exe, &args, Some(RLIMIT_AS), Duration::from_secs(300), |l| {
+    for _ in 0..5 {
+        let _ = run_worker(exe, &args, Some(RLIMIT_AS), Duration::from_secs(600), |l| {
             if let Some(a) = l.strip_prefix("A ") {
                 if let Some(p) = a.find("site:") {
                     site = Some(a[p + 5..].trim().to_string());
